@@ -2,6 +2,7 @@
 from vlib import *
 import m_sort
 import m_conv
+import m_rng
 
 
 def run(chk):
@@ -13,17 +14,21 @@ def run(chk):
         return
     m_conv.run(chk, binary, 2500 if quick else 40000, 40 if quick else 120)
     m_sort.run(chk, binary, 300 if quick else 6000)
+    m_rng.run(chk, binary, 400 if quick else 8000)
     chk.cov["rule"] = ("osu!standard maps (G1: all shapes, format versions 3-14, all object mixes, slider lengths/repeats, hit "
                        "sound flags, timing setups; G2 mutations of the shipped map) x target taiko/catch/mania x key mods 1K-9K "
                        "(legacy bits), 10K (intermode), none; checked on every converted map: objects non-decreasing, "
                        "durations >= 0, taiko one sound per object and no hold notes, mania key count = key mod or within 4..7 "
                        "and every note in a column below it on the integer x grid, catch objects and control points untouched, "
                        "control points strictly ordered, mode/is_convert set; target_columns and column() vs the Coq model; "
-                       "non-trivial = at least 2 objects")
+                       "generator call sequences (seeds incl. 0, i32::MIN/MAX; gen/int/double/range/bool resp. next/next_max) vs the Coq "
+                       "models; non-trivial = at least 2 objects")
     chk.cov["trusted_base"] = [
         "Coq 8.16.1 kernel + vm_compute incl. primitive floats; Lib/F32.v for the f32 steps",
         "Model/ManiaCols.v, Model/Decode.v hand-written; tied by the column/target_columns traces and the decoder traces",
         "NOT modelled: which pattern the mania generators choose, slider path lengths, the taiko hit-splitting arithmetic — "
         "decided by the direct oracle only",
-        "random columns: only the end points of Random::next_int_range are proved in range (monotonicity in between assumed)",
+        "random columns: Model/Prng.v (both generators) tied to util/random/{osu,csharp}.rs by recorded call sequences on every "
+        "run (hook re-exports OsuRandom / CsharpRandom); next_int_range is proved exact and in range for every generator state "
+        "with Flocq (FloatAxioms, Reals axioms, classic, functional extensionality - standard library)",
         "harness/src/conv.rs, tools/m_conv.py"]
